@@ -23,6 +23,7 @@ pub fn opts() -> GenOpts {
     o.adjacent_cmds = true;
     o.cmd_fallback = true;
     o.adjacent_cmd_last = true;
+    o.hidden_cmds = true;
     o
 }
 
